@@ -8,6 +8,25 @@ from rules import C08
 AG = "trompeloeil::trace_agent"
 
 
+def executed(tu, fn, tracer_value, pred):
+    """number of events satisfying pred that are executed when fn is interpreted with the agent's tracer pointer
+    holding tracer_value (None = no tracer); None when the function cannot be interpreted"""
+    from rules.common import Oracle
+    from engine.table import Interp, Unknown
+    hits = []
+
+    def hook(e, it):
+        if pred(e):
+            hits.append(e)
+        return None
+    o = Oracle(members={AG + "::t": tracer_value}, any_member=True, any_call=True, any_param=True)
+    try:
+        Interp(fn, o).run(event_hook=hook)
+    except Unknown:
+        return None
+    return len(hits)
+
+
 def c17a(ctx, tu):
     """exactly one call site of the trace sink, in the agent's destructor, guarded by its tracer pointer"""
     sites = []
@@ -24,9 +43,10 @@ def c17a(ctx, tu):
             r = lib.strip_casts(e.get("recv"))
             ok = isinstance(r, list) and r[:1] == ["member"] and erase(r[1]) == AG + "::t"
             why = "the record must go to the tracer the agent was constructed with"
-            g = [bid for bid in f.blocks if cfg.cond_of(f, bid) is not None and
-                 erase(str(cond_shape(cfg.cond_of(f, bid))[0][1])) == AG + "::t"]
-            ok = ok and len(g) == 1 and cfg.edge_dominates(f, (g[0], 0 if cond_shape(cfg.cond_of(f, g[0]))[1] else 1), b["id"])
+            # ... exactly when that tracer is non-null (however the test is spelled)
+            n_null = executed(tu, f, None, lambda x: x is e)
+            n_live = executed(tu, f, ("obj", "tracer"), lambda x: x is e)
+            ok = ok and n_null == 0 and n_live == 1
             if ok:
                 a = str(e.get("args"))
                 ok = "location::file" in a and "location::line" in a and "trace_agent::os" in a
@@ -180,14 +200,12 @@ def c17e(ctx, tu):
     """the agent records only when a tracer is active"""
     for name in (AG + "::trace_params", AG + "::trace_return"):
         for fn in tu.find(name):
-            streams = cfg.find_events(fn, lambda e: e["e"] == "call" and (qe(e) in ("trompeloeil::stream_params", "trompeloeil::print")
-                                                                         or e.get("op") == "<<"))
-            g = [bid for bid in fn.blocks if cfg.cond_of(fn, bid) is not None and
-                 erase(str(cond_shape(cfg.cond_of(fn, bid))[0][1])) == AG + "::t"]
-            ok = len(g) == 1 and bool(streams)
-            if ok:
-                pol = cond_shape(cfg.cond_of(fn, g[0]))[1]
-                ok = all(cfg.edge_dominates(fn, (g[0], 0 if pol else 1), b) for b, _, _ in streams)
+            is_stream = lambda e: e["e"] == "call" and (qe(e) in ("trompeloeil::stream_params", "trompeloeil::print") or
+                                                        e.get("op") == "<<")
+            streams = cfg.find_events(fn, is_stream)
+            n_null = executed(tu, fn, None, is_stream)
+            n_live = executed(tu, fn, ("obj", "tracer"), is_stream)
+            ok = bool(streams) and n_null == 0 and bool(n_live)
             if name.endswith("trace_params"):
                 ok = ok and any(qe(e) == "trompeloeil::stream_params" and e["args"][1][:2] == ["param", 0] for _, _, e in streams)
             ctx.ob("C17.e", name, ok, pattern=fn.pat, unit=tu.name, inst=fn.q,
